@@ -60,14 +60,19 @@ impl<'ast> Visit<'ast> for BodyIdx {
             syn::ReturnType::Type(_, t) => sp(t.span()),
         };
         let or2 = c.or2_token.span();
+        let body_stmts: Vec<Value> = match &*c.body {
+            syn::Expr::Block(b) => b.block.stmts.iter().map(stmt_json).collect(),
+            _ => vec![],
+        };
         self.closures.push(json!({"span": sp(c.span()), "params": params, "ret": ret,
-            "or2_end": or2.byte_range().end,
+            "or2_end": or2.byte_range().end, "body_stmts": body_stmts,
             "body": sp(c.body.span()), "body_is_block": matches!(&*c.body, syn::Expr::Block(_))}));
         visit::visit_expr_closure(self, c);
     }
     fn visit_expr_for_loop(&mut self, l: &'ast syn::ExprForLoop) {
         self.own_attrs(&l.attrs, l.span());
         self.loops.push(json!({"kind":"for","span": sp(l.span()), "body": sp(l.body.span()),
+             "iter_expr": sp(l.expr.span()), "pat": sp(l.pat.span()),
              "head_end": l.expr.span().byte_range().end}));
         visit::visit_expr_for_loop(self, l);
     }
